@@ -15,10 +15,11 @@
     wrapped (`wrap16`) exactly where Rust casts `as i16` or negates an `i16` — since the i16 guard in
     MarkArray / CursivePos (D13b fixed) those casts are exact (`Lemmas: ChainOK`);
   * `propagate_attachment_offsets` carries HarfBuzz's `nesting_level` budget (D13 fixed): the model recursion
-    is structural on it.  `reverse_cursive_minor_offset` still has no limit (as in HarfBuzz); it terminates
-    because each frame zeroes one non-zero `attach_chain` before recursing; its model recursion is structural
-    on a `fuel` argument, the result carries the recursion depth, and `Lemmas/Gpos.lean` proves that
-    `fuel = (number of non-zero chains) + 1` is always enough (so `.fuel` is never observed).
+    is structural on it.  `reverse_cursive_minor_offset` is two loops over a heap work list (no recursion since
+    the fix); the first loop terminates because each iteration zeroes one non-zero `attach_chain`; its model is
+    structural on a `fuel` argument and `Lemmas/Gpos.lean` proves that `fuel = (number of non-zero chains) + 1`
+    is always enough (so `.fuel` is never observed) and that the two loops compute exactly what the former
+    recursion computed (`reverseCursive_eq`).
 -/
 namespace RbModel.Gpos
 
@@ -217,35 +218,53 @@ def markArrayApply (p : Array Pos) (idx glyphPos : Nat) (markX markY baseX baseY
 
 /-! ### cursive attachment -/
 
-/-- src: GPOS/cursive_pos.rs::reverse_cursive_minor_offset.
-    `j = (i + chain) as usize`: a negative target wraps, is never equal to `new_parent` and the nested
-    call indexes out of bounds. -/
-def reverseCursiveMinorOffset (fuel : Nat) (p : Array Pos) (i : Nat) (d : Dir) (newParent : Nat) :
-    M (Array Pos × Nat) :=
-  match fuel with
-  | 0 => .error .fuel
-  | fuel + 1 =>
+/-- one entry of the work list of `reverse_cursive_minor_offset`: (i, chain, attach_type) as read on the way down -/
+abbrev Frame := Nat × Int × Nat
+
+/-- src: GPOS/cursive_pos.rs::reverse_cursive_minor_offset — first loop: down the old chain, zeroing every
+    link on the way and pushing the glyph on the work list (a heap `Vec`, no recursion since the fix).
+    `j = (i + chain) as usize`: a negative target wraps, is never equal to `new_parent`, is pushed, and the
+    next iteration indexes out of bounds.  The loop ends because every iteration zeroes one non-zero link:
+    `fuel` = (number of non-zero links) + 1 is always enough (`Lemmas/Gpos.lean`). -/
+def reverseDescend (np : Nat) : Nat → Array Pos → Nat → List Frame → M (Array Pos × List Frame)
+  | 0, _, _, _ => .error .fuel
+  | fuel + 1, p, i, work =>
     match get p i with
     | .error e => .error e
     | .ok pi =>
-      if pi.chain = 0 ∨ pi.atype &&& ATTACH_CURSIVE = 0 then .ok (p, 1)
+      if pi.chain = 0 ∨ pi.atype &&& ATTACH_CURSIVE = 0 then .ok (p, work)
       else
         let p1 := put p i { pi with chain := 0 }
         let jz : Int := (i : Int) + pi.chain
         if jz < 0 then .error .oob
         else
           let j := jz.toNat
-          if j = newParent then .ok (p1, 1)
-          else
-            match reverseCursiveMinorOffset fuel p1 j d newParent with
-            | .error e => .error e
-            | .ok (p2, dep) =>
-              match get p2 i, get p2 j with
-              | .error e, _ => .error e
-              | _, .error e => .error e
-              | .ok qi, .ok qj =>
-                let qj := if d.isHorizontal then { qj with yo := - qi.yo } else { qj with xo := - qi.xo }
-                .ok (put p2 j { qj with chain := wrap16 (- pi.chain), atype := pi.atype }, dep + 1)
+          if j = np then .ok (p1, work)
+          else reverseDescend np fuel p1 j ((i, pi.chain, pi.atype) :: work)
+
+/-- src: GPOS/cursive_pos.rs::reverse_cursive_minor_offset — second loop: `while let Some(..) = work.pop()`,
+    attaching every glyph of the old chain to the one that used to hang on it. -/
+def reverseUnwind (d : Dir) : Array Pos → List Frame → M (Array Pos)
+  | p, [] => .ok p
+  | p, (i, chain, ty) :: rest =>
+    let j := ((i : Int) + chain).toNat
+    match get p i, get p j with
+    | .error e, _ => .error e
+    | _, .error e => .error e
+    | .ok qi, .ok qj =>
+      let qj := if d.isHorizontal then { qj with yo := - qi.yo } else { qj with xo := - qi.xo }
+      reverseUnwind d (put p j { qj with chain := wrap16 (- chain), atype := ty }) rest
+
+/-- src: GPOS/cursive_pos.rs::reverse_cursive_minor_offset.  Second component: length of the walk
+    (= work list length + 1; it was the recursion depth before the fix). -/
+def reverseCursiveMinorOffset (fuel : Nat) (p : Array Pos) (i : Nat) (d : Dir) (newParent : Nat) :
+    M (Array Pos × Nat) :=
+  match reverseDescend newParent fuel p i [] with
+  | .error e => .error e
+  | .ok (p1, work) =>
+    match reverseUnwind d p1 work with
+    | .error e => .error e
+    | .ok q => .ok (q, work.length + 1)
 
 /-- src: GPOS/cursive_pos.rs::CursiveAdjustment::apply — the `match direction` block (main axis).
     `i` = previous (exit side) glyph found by `iter.prev`, `j` = `buffer.idx` (entry side). -/
